@@ -22,6 +22,30 @@
   plus the frame `ack_only_changes_as_stated` (nothing but the operations above sets or clears it) and
   `state_is_latest_result`, `problem_iff_not_ok` which tie the bookkeeping to the trace.
 
+  Second layer (each sentence read once more, for what the first layer left to the model/implementation diff):
+
+    "either is cleared once its expiry time has passed" — whichever reader comes first: the raw attribute may lag
+      behind only by exactly that lazy expiry                                  raw_attribute_consistent
+    "counts as handled" also in the severity class                             severity_counts_ack
+    the stored expiry of a set acknowledgement is the requested one            expiry_attr_as_requested
+    "Problem notifications are withheld (to be handled by C02 afterwards)": a due Problem notification is stashed,
+      with its own type, and nothing is withheld or stashed without reason     withheld_problem_is_stashed,
+                                                                               stash_only_when_withheld,
+                                                                               state_notification_iff_due_and_clear
+    … and so are the reminders: a due reminder Problem notification is attempted iff the object is a hard problem
+      that is not acknowledged (nor in a downtime, nor waiting for its first notification)
+                                                                               reminder_withheld_while_acked,
+                                                                               reminder_iff_unhandled_hard_problem
+    "exactly one Acknowledgement notification" — none from a paused object (the active zone member sends it), the
+      set event in any case                                                    ack_notify_once (with the paused bit)
+    "is refused" — and nothing else is                                         refusal_justified
+    "acknowledge (…, persistent)": the comment that goes with an accepted acknowledgement is the requested one
+      (entry time, persistence, expiry); removal takes the non-persistent ones away; the comment-expiry timer
+      only expired non-persistent ones; nothing else touches them              ack_comment_as_requested,
+                                                                               removal_removes_comments,
+                                                                               comment_timer_removes_only_expired,
+                                                                               comments_only_change_as_stated
+
   Which entry points refuse what is the split the anchors give: the API action and the external commands refuse
   OK/Up and acknowledged objects; the cluster handler refuses acknowledged objects only.
 -/
@@ -38,14 +62,22 @@ structure SpecSt where
   expiry : Int          -- expiry requested by the operation that set it (0 = none)
   comments : List Cmt   -- acknowledgement comments at the previous look
   inDt : Bool := false  -- a downtime is in effect (from the downtime operations)
+  stype : SType := .hard  -- state type and attempt at the previous look (when a state notification is due is C01/C02's
+  attempt : Nat := 1      --   rule; it is evaluated on what the trace showed)
+  suppP : Bool := false   -- stashed state notifications at the previous look
+  suppR : Bool := false
+  paused : Bool := false  -- from the pause operations
   deriving Repr, DecidableEq
 
-def specInit : SpecSt := { state := .unknown, ack := .none, expiry := 0, comments := [], inDt := false }
+def specInit : SpecSt :=
+  { state := .unknown, ack := .none, expiry := 0, comments := [], inDt := false, stype := .soft, attempt := 1 }
 
 inductive Clause
   | stateRecorded | problemIffNotOk | expiryClears | normalCleared | stickyRecovery | stickyKept | unchangedKeeps
   | ackFrame | refuseOk | refuseAcked | ackSet | setEventOnce | ackNotifyOnce | clearedEventOnce
   | handledIff | problemWithheld | commentsRemoved
+  | rawConsistent | severityAck | expiryStored | withheldStashed | stashFrame | notifIffDue | refusalJustified
+  | ackComment | removalComments | commentTimer | commentsFrame | reminderWithheld | reminderIff
   deriving Repr, DecidableEq
 
 def Clause.name : Clause → String
@@ -66,6 +98,19 @@ def Clause.name : Clause → String
   | .handledIff => "handled_iff"
   | .problemWithheld => "problem_withheld_while_acked"
   | .commentsRemoved => "ack_comments_removed"
+  | .rawConsistent => "raw_attribute_consistent"
+  | .severityAck => "severity_counts_ack"
+  | .expiryStored => "expiry_attr_as_requested"
+  | .withheldStashed => "withheld_problem_is_stashed"
+  | .stashFrame => "stash_only_when_withheld"
+  | .notifIffDue => "state_notification_iff_due_and_clear"
+  | .refusalJustified => "refusal_justified"
+  | .ackComment => "ack_comment_as_requested"
+  | .removalComments => "removal_removes_comments"
+  | .commentTimer => "comment_timer_removes_only_expired"
+  | .commentsFrame => "comments_only_change_as_stated"
+  | .reminderWithheld => "reminder_withheld_while_acked"
+  | .reminderIff => "reminder_iff_unhandled_hard_problem"
 
 /-- The requested expiry has passed at `now`. -/
 def ranOut (sp : SpecSt) (now : Int) : Bool :=
@@ -88,20 +133,44 @@ def first (checks : List (Bool × Clause)) : Option Clause :=
   | [] => none
   | (bad, cl) :: rest => if bad then some cl else first rest
 
+/-- When a state notification (Problem / Recovery) is due for a result is C01/C02's rule (`sendNotification`:
+    hard change, volatile); it is evaluated on the state, state type and attempt the trace showed at the previous
+    look. -/
+def notificationDue (c : Cfg) (sp : SpecSt) (new : SState) : Bool :=
+  sendNotification c { pending with state := sp.state, stype := sp.stype, attempt := sp.attempt } new
+
+/-- The stored expiry the bookkeeping expects after the look. -/
+def expiryAfter (sp : SpecSt) (op : Op) (o : Obs) : Int :=
+  if o.ack == .none then 0
+  else match op with
+    | .ack via _ _ _ expiry _ => if o.acc then requestedExpiry via expiry else sp.expiry
+    | _ => sp.expiry
+
 /-- Clauses every look has to satisfy: events are counted once; handled iff it is a problem that is acknowledged
-    (or in a downtime — C05's half of the attribute, `inDt` comes from the downtime operations). -/
-def common (o : Obs) (inDt : Bool) (nSet nClr nAckN : Nat) : List (Bool × Clause) :=
+    (or in a downtime — C05's half of the attribute, `inDt` comes from the downtime operations), the severity class
+    agrees, a set acknowledgement carries the requested expiry. -/
+def common (sp : SpecSt) (op : Op) (o : Obs) (inDt : Bool) (nSet nClr nAckN : Nat) : List (Bool × Clause) :=
   [ (o.nSet != nSet, .setEventOnce),
     (o.nAckN != nAckN, .ackNotifyOnce),
     (o.nClr != nClr, .clearedEventOnce),
-    (o.handled != (o.problem && (inDt || o.ack != .none)), .handledIff) ]
+    (o.handled != (o.problem && (inDt || o.ack != .none)), .handledIff),
+    (o.sevAck != (o.problem && o.ack != .none), .severityAck),
+    (o.ack != .none && o.expiry != expiryAfter sp op o, .expiryStored) ]
+
+/-- Outside accepted results no state notification is requested and the stash stays as it is. -/
+def quiet (sp : SpecSt) (o : Obs) : List (Bool × Clause) :=
+  [ (o.nProbN != 0 || o.nRecN != 0, .notifIffDue),
+    (o.nRem != 0 && o.ack != .none, .reminderWithheld),
+    (o.suppP != sp.suppP || o.suppR != sp.suppR, .stashFrame) ]
 
 /-- A look at which nothing but the running out of the acknowledgement may have happened (time advance, dropped
-    result, refused acknowledge, timer pump, downtime): it is gone iff its expiry has passed — then with one cleared
-    event —, nothing is set, nothing is notified. -/
-def lookChecks (sp : SpecSt) (now : Int) (inDt : Bool) (frame : Clause) (o : Obs) : List (Bool × Clause) :=
-  [ (ranOut sp now && o.ack != .none, .expiryClears), (o.ack != ackAt sp now, frame) ] ++
-    common o inDt 0 (if ranOut sp now then 1 else 0) 0
+    result, refused acknowledge, timer pump, downtime, pause): it is gone iff its expiry has passed — then with one
+    cleared event —, nothing is set, nothing is notified; the raw attribute is still what it was unless a reader inside
+    the operation already noticed the expiry. -/
+def lookChecks (sp : SpecSt) (op : Op) (inDt : Bool) (frame : Clause) (o : Obs) : List (Bool × Clause) :=
+  [ (ranOut sp op.now && o.ack != .none, .expiryClears), (o.ack != ackAt sp op.now, frame),
+    (o.raw != sp.ack && o.raw != o.ack, .rawConsistent) ] ++
+    common sp op o inDt 0 (if ranOut sp op.now then 1 else 0) 0 ++ quiet sp o
 
 /-- Check one (operation, observation) pair.  `sp` is the bookkeeping before the operation. -/
 def specStep (c : Cfg) (sp : SpecSt) (op : Op) (o : Obs) : Option Clause :=
@@ -114,6 +183,11 @@ def specStep (c : Cfg) (sp : SpecSt) (op : Op) (o : Obs) : Option Clause :=
       let rec_ := sc && isOK c.kind new
       let a1 : Ack := if sc && (a0 == .normal || (a0 == .sticky && isOK c.kind new)) then .none else a0
       let c1 := if a0 != .none && a1 == .none then 1 else 0
+      -- the state notification of this result: due by C01/C02's rule and the object not paused; a recovery is a
+      -- change from not-OK to OK; withheld while acknowledged / in a downtime / while something is stashed
+      let due := notificationDue c sp new && !sp.paused
+      let recovery := isOK c.kind new && !isOK c.kind sp.state
+      let stash := due && (o.ack != .none || sp.inDt || sp.suppP || sp.suppR)
       first ([ (o.state != new, .stateRecorded),
                (o.problem != !isOK c.kind new, .problemIffNotOk),
                (ranOut sp op.now && o.ack != .none, .expiryClears),
@@ -121,32 +195,68 @@ def specStep (c : Cfg) (sp : SpecSt) (op : Op) (o : Obs) : Option Clause :=
                (a0 == .sticky && rec_ && o.ack != .none, .stickyRecovery),
                (a0 == .sticky && !rec_ && o.ack != .sticky, .stickyKept),
                (!sc && o.ack != a0, .unchangedKeeps),
-               (o.ack != a1, .ackFrame) ] ++
-             common o sp.inDt 0 (c0 + c1) 0 ++
+               (o.ack != a1, .ackFrame),
+               -- (an implementation may or may not have evaluated the expiry inside the operation)
+               (o.raw != sp.ack && o.raw != o.ack, .rawConsistent) ] ++
+             common sp op o sp.inDt 0 (c0 + c1) 0 ++
              [ (o.nProbN != 0 && o.ack != .none, .problemWithheld),
+               (due && !recovery && o.ack != .none && !o.suppP, .withheldStashed),
+               (o.suppP != (sp.suppP || (stash && !recovery)) || o.suppR != (sp.suppR || (stash && recovery)), .stashFrame),
+               (o.nProbN != (if due && !stash && !recovery then 1 else 0) ||
+                o.nRecN != (if due && !stash && recovery then 1 else 0), .notifIffDue),
                (o.comments != (if o.ack == .none then sp.comments.filter (keepsComment execEnd) else sp.comments),
-                 .commentsRemoved) ])
+                 .commentsRemoved),
+               (o.nRem != 0, .reminderIff) ])
     else
       -- a result that was not accepted changes nothing
-      first (lookChecks sp op.now sp.inDt .unchangedKeeps o)
-  | .ack via sticky notify _ expiry now =>
+      first (lookChecks sp op sp.inDt .unchangedKeeps o ++ [ (o.comments != sp.comments, .commentsFrame),
+                                                           (o.nRem != 0, .reminderIff) ])
+  | .ack via sticky notify persistent expiry now =>
     if o.acc then
       let e := requestedExpiry via expiry
       let gone := e != 0 && decide (e < now)   -- accepted with an expiry that has already passed (cluster only)
       first ([ (via != .cluster && isOK c.kind sp.state, .refuseOk),
                (a0 != .none, .refuseAcked),
+               (o.raw != ackTypeOf sticky, .ackSet),
                (gone && o.ack != .none, .expiryClears),
                (!gone && o.ack != ackTypeOf sticky, .ackSet) ] ++
-             common o sp.inDt 1 (c0 + if gone then 1 else 0) (if notify then 1 else 0))
+             common sp op o sp.inDt 1 (c0 + if gone then 1 else 0) (if notify && !sp.paused then 1 else 0) ++
+             quiet sp o ++
+             [ (via != .cluster && o.comments != insertCmt ⟨now, persistent, e⟩ sp.comments, .ackComment),
+               (via == .cluster && o.comments != sp.comments, .commentsFrame),
+               (o.nRem != 0, .reminderIff) ])
     else
-      first (lookChecks sp op.now sp.inDt .ackFrame o)
-  | .remove _ _ =>
-    first ([ (o.ack != .none, .ackFrame) ] ++ common o sp.inDt 0 (if sp.ack != .none then 1 else 0) 0)
-  | .advance _ => first (lookChecks sp op.now sp.inDt .ackFrame o)
-  -- the comment-expiry timer touches comments only
-  | .pump _ _ => first (lookChecks sp op.now sp.inDt .ackFrame o)
+      first ([ (!((via != .cluster && isOK c.kind sp.state) || a0 != .none ||
+                  ((via == .api || via == .extExpire) && expiry != 0 && decide (expiry ≤ now))), .refusalJustified) ] ++
+             lookChecks sp op sp.inDt .ackFrame o ++ [ (o.comments != sp.comments, .commentsFrame),
+                                                        (o.nRem != 0, .reminderIff) ])
+  | .remove via _ =>
+    first ([ (o.ack != .none, .ackFrame), (o.raw != .none, .rawConsistent) ] ++
+           common sp op o sp.inDt 0 (if sp.ack != .none then 1 else 0) 0 ++ quiet sp o ++
+           [ (via != .cluster && o.comments != sp.comments.filter (·.persistent), .removalComments),
+             (via == .cluster && o.comments != sp.comments, .commentsFrame),
+             (o.nRem != 0, .reminderIff) ])
+  | .advance _ => first (lookChecks sp op sp.inDt .ackFrame o ++ [ (o.comments != sp.comments, .commentsFrame),
+                                                                 (o.nRem != 0, .reminderIff) ])
+  -- the comment-expiry timer touches comments only, and only expired non-persistent ones (whether it ran is the
+  -- timer's business, not the property's)
+  | .pump now _ =>
+    first (lookChecks sp op sp.inDt .ackFrame o ++
+           [ (o.comments != sp.comments && o.comments != sp.comments.filter (survivesExpiry now), .commentTimer),
+             (o.nRem != 0, .reminderIff) ])
   -- a downtime neither sets nor clears an acknowledgement
-  | .downtime on _ => first (lookChecks sp op.now on .ackFrame o)
+  | .downtime on _ => first (lookChecks sp op on .ackFrame o ++ [ (o.comments != sp.comments, .commentsFrame),
+                                                                   (o.nRem != 0, .reminderIff) ])
+  -- nor does pausing
+  | .pause _ _ => first (lookChecks sp op sp.inDt .ackFrame o ++ [ (o.comments != sp.comments, .commentsFrame),
+                                                                   (o.nRem != 0, .reminderIff) ])
+  -- a due reminder neither sets nor clears anything; it is attempted iff the object is a hard problem, its first
+  -- Problem notification is not still stashed, and it is neither in a downtime nor acknowledged
+  | .remind _ =>
+    first (lookChecks sp op sp.inDt .ackFrame o ++
+           [ (o.comments != sp.comments, .commentsFrame),
+             (o.nRem != (if sp.stype == .hard && !isOK c.kind sp.state && !sp.suppP && !sp.inDt && o.ack == .none then 1 else 0),
+               .reminderIff) ])
 
 /-- Bookkeeping after the look: read off the observation; the requested expiry is remembered when an
     acknowledgement is accepted and forgotten when none is set any more. -/
@@ -155,10 +265,11 @@ def specNext (sp : SpecSt) (op : Op) (o : Obs) : SpecSt :=
     inDt := (match op with
              | .downtime on _ => on
              | _ => sp.inDt),
-    expiry := if o.ack == .none then 0
-              else match op with
-                | .ack via _ _ _ expiry _ => if o.acc then requestedExpiry via expiry else sp.expiry
-                | _ => sp.expiry }
+    expiry := expiryAfter sp op o,
+    stype := o.stype, attempt := o.attempt, suppP := o.suppP, suppR := o.suppR,
+    paused := (match op with
+               | .pause on _ => on
+               | _ => sp.paused) }
 
 def specTrace (c : Cfg) : SpecSt → List (Op × Obs) → Option Clause
   | _, [] => none
